@@ -1,5 +1,221 @@
-(* C01 — placeholder while the correspondence is brought up; replaced by the theorem statements. *)
-From Coq Require Import List NArith.
-From Mant Require Import Gen.ConstsC01.
-Example C01_chunk_size : c01_chunkSize = 64%N.
+(* C01 — Password-hash primitives equal their reference algorithms on every input.
+   Statements only; proofs are in Proofs/C01Md4Compress.v, C01Md4Stream.v, C01Text.v, C01Lm.v, C01Hashes.v,
+   C01CaseTable.v, C01Main.v.  Models: Model/Md4Go.v (crypto/md4), Model/C01Text.v (utils/encoding/utf16 + the Go string
+   library pieces), Model/NtLmDcc.v (crypto/nt, lm, dcc, dcc2).  Specification: Spec/C01.v over the shared
+   references Algo/MD4 (RFC 1320), Utf16 (RFC 2781), Utf8 (RFC 3629), DES (FIPS 46-3 + MS-NLMP str_to_key),
+   PBKDF2/HMAC/SHA1 (RFC 8018 / 2104 / FIPS 180). *)
+From Coq Require Import List NArith ZArith Lia Bool.
+From Mant Require Import Prim.R Prim.Bytes Prim.Dec Algo.Word Algo.MD4 Algo.DES Algo.PBKDF2 Algo.Utf16 Algo.Utf8
+  Gen.ConstsC01 Model.Md4Go Model.C01Text Model.NtLmDcc Spec.C01
+  Proofs.C01Md4Compress Proofs.C01Md4Stream Proofs.C01Text Proofs.C01Lm Proofs.C01Hashes Proofs.C01CaseTable Proofs.C01Main.
+Import ListNotations.
+Open Scope N_scope.
+
+(* ================================================================== MD4 *)
+
+(* The three bit-level identities behind ff/gg/hh, for ALL 32-bit words (no sampling). *)
+Theorem C01_md4_bit_identities : forall b c d, b < 2 ^ 32 -> c < 2 ^ 32 -> d < 2 ^ 32 ->
+  N.lxor d (N.land b (N.lxor c d)) = md4_F b c d /\
+  N.lor (N.land b c) (N.land d (N.lor b c)) = md4_G b c d /\
+  N.lxor (N.lxor b c) d = md4_H b c d.
+Proof. exact main_md4_bit_identities. Qed.
+Print Assumptions C01_md4_bit_identities.
+
+(* processChunk — the 48 statements as the source writes them (go_schedule, compared with the source on every
+   run), ff/gg/hh/rol with uint32 wrap-around — is the compression function of RFC 1320 section 3.4, for every
+   state of four 32-bit words and every block. *)
+Theorem C01_md4_compress : forall a b c d chunk, a < 2 ^ 32 -> b < 2 ^ 32 -> c < 2 ^ 32 -> d < 2 ^ 32 ->
+  process_chunk (a, b, c, d) chunk = md4_compress (a, b, c, d) (words_le chunk).
+Proof. exact main_md4_compress. Qed.
+Print Assumptions C01_md4_compress.
+
+(* Streaming: however the message is cut into successive writes (any number of chunks, any lengths, empty chunks
+   included), Sum returns RFC 1320's digest of the concatenation.  The property text restricts to
+   8 * total length < 2^64; the theorem needs no bound, because the bit counter wraps exactly as RFC 1320
+   section 3.2 prescribes (low-order 64 bits of the length). *)
+Theorem C01_md4_streaming : forall chunks,
+  fst (md4_sum (fold_left md4_write chunks md4_new)) = md4 (concat chunks).
+Proof. exact md4_streaming. Qed.
+Print Assumptions C01_md4_streaming.
+
+(* md4.Sum(data), the one-shot function. *)
+Theorem C01_md4_oneshot : forall data, md4_sum_data data = md4 data.
+Proof. exact md4_sum_data_rfc. Qed.
+Print Assumptions C01_md4_oneshot.
+
+(* Reading the digest changes nothing: in every history of Write(p) / Sum() / HexSum() calls on one object,
+   each read returns the digest (raw, resp. lower-case hexadecimal) of the concatenation of all earlier writes. *)
+Theorem C01_md4_reads_pure : forall ops,
+  md4_run md4_new ops = reads_spec md4 [] (map spec_op ops).
+Proof. exact md4_reads_pure. Qed.
+Print Assumptions C01_md4_reads_pure.
+
+(* ... because Sum leaves the object as it found it (repaired behaviour) ... *)
+Theorem C01_md4_sum_keeps_state : forall st, snd (md4_sum st) = st.
+Proof. exact sum_pure. Qed.
+Print Assumptions C01_md4_sum_keeps_state.
+
+(* ... whereas the Sum of the tree before "fix: md4.Sum pads a copy of the state" finalised the live object:
+   Write("abc"); Sum; Sum returned two different digests (the defect, reproduced by oracle c01.md4_history). *)
+Theorem C01_md4_sum_defect_witness :
+  let st := md4_write md4_new [97; 98; 99] in
+  let '(d1, st1) := md4_sum_unrepaired st in
+  let '(d2, _) := md4_sum_unrepaired st1 in
+  d1 = md4 [97; 98; 99] /\ d2 <> md4 [97; 98; 99].
+Proof. exact md4_sum_unrepaired_not_pure. Qed.
+Print Assumptions C01_md4_sum_defect_witness.
+
+(* ================================================================== UTF-16 *)
+
+(* Go's []rune(s) on a valid UTF-8 string (RFC 3629 section 4) is its sequence of scalar values. *)
+Theorem C01_runes_valid : forall s cps, utf8_decode s = Some cps -> go_runes s = cps.
+Proof. exact go_runes_valid. Qed.
+Print Assumptions C01_runes_valid.
+
+(* EncodeUTF16LE of a valid UTF-8 string is RFC 2781's encoding of its scalar values (surrogate pairs above
+   U+FFFF), each unit low byte first. *)
+Theorem C01_utf16_encode : forall s cps, utf8_decode s = Some cps -> encode_utf16le s = utf16le_encode cps.
+Proof. exact encode_utf16le_valid. Qed.
+Print Assumptions C01_utf16_encode.
+
+(* For every sequence of Unicode scalar values (BMP and non-BMP alike), given as a Go string (its UTF-8):
+   EncodeUTF16LE produces the RFC 2781 bytes and DecodeUTF16LE returns the original string. *)
+Theorem C01_utf16 : forall cps, Forall scalar_value cps ->
+  encode_utf16le (utf8_encode cps) = utf16le_encode cps /\
+  decode_utf16le (encode_utf16le (utf8_encode cps)) = Ok (utf8_encode cps).
+Proof. exact utf16le_roundtrip. Qed.
+Print Assumptions C01_utf16.
+
+(* RFC 2781 itself round-trips (shared reference). *)
+Theorem C01_utf16_rfc : forall cps, Forall scalar_value cps -> utf16le_decode (utf16le_encode cps) = cps.
+Proof. exact Proofs.AlgoProofs.utf16le_decode_encode. Qed.
+Print Assumptions C01_utf16_rfc.
+
+(* Totality of the decoding entry point of this property's files (reused by C07): DecodeUTF16LE never panics
+   (after "fix: DecodeUTF16LE ignores a trailing odd byte"); before the repair every odd length panicked. *)
+Theorem C01_total_utf16_decode : forall b, decode_utf16le b <> Panic.
+Proof. exact decode_utf16le_total. Qed.
+Print Assumptions C01_total_utf16_decode.
+
+Theorem C01_total_utf16_decode_unrepaired_refuted : decode_utf16le_unrepaired [0x3d] = Panic.
+Proof. exact decode_utf16le_unrepaired_panics. Qed.
+Print Assumptions C01_total_utf16_decode_unrepaired_refuted.
+
+(* ================================================================== NT hash *)
+
+(* For every valid-UTF-8 password: NTHash = MD4(UTF-16LE(password)) (MS-NLMP NTOWFv1), raw and hexadecimal. *)
+Theorem C01_nt : forall pw cps, utf8_decode pw = Some cps ->
+  nt_hash pw = ntowfv1 cps /\ nt_hash_hex pw = hex_form (ntowfv1 cps).
+Proof. exact main_nt. Qed.
+Print Assumptions C01_nt.
+
+(* ================================================================== LM hash *)
+
+(* Go's inline 7 -> 8 byte spread and MS-NLMP's str_to_key agree on the 56 key bits (the upper seven bits of
+   each of the eight bytes) for every 7-byte input. *)
+Theorem C01_lm_key : forall h, length h = 7%nat -> wf_bytes h ->
+  map (fun b => b / 2) (lm_spread h) = map (fun b => b / 2) (str_to_key h).
+Proof. exact lm_spread_key_bits. Qed.
+Print Assumptions C01_lm_key.
+
+(* The DES key schedule (FIPS 46-3, PC-1) ignores the eight parity positions: two 8-byte keys that agree on the
+   56 key bits have the same sixteen subkeys. *)
+Theorem C01_lm_des_parity : forall k k', length k = 8%nat -> length k' = 8%nat ->
+  map (fun b => b / 2) k = map (fun b => b / 2) k' -> des_subkeys k = des_subkeys k'.
+Proof. exact des_subkeys_ignore_parity. Qed.
+Print Assumptions C01_lm_des_parity.
+
+(* Hence, for every 7-bit ASCII password of every length (empty, short, exactly 7 or 14, longer than 14; lower
+   case letters included), LMHash is LMOWFv1 of MS-NLMP 3.3.1, raw and hexadecimal — whatever rune mapping
+   strings.ToUpper uses outside ASCII. *)
+Theorem C01_lm : forall upper_cp pw, ascii7 pw ->
+  lm_hash upper_cp pw = lmowfv1 pw /\ lm_hash_hex upper_cp pw = hex_form (lmowfv1 pw).
+Proof. exact main_lm. Qed.
+Print Assumptions C01_lm.
+
+(* ================================================================== MS-Cache v1 / v2 *)
+
+(* Parametric in the rune mapping behind strings.ToLower (a Go standard-library table); the two hypotheses say it
+   is the byte-wise mapping on ASCII and keeps scalar values scalar.  Passwords are valid UTF-8 strings, user names
+   are given by their scalar values (a valid UTF-8 string is the encoding of its scalar values). *)
+
+(* DCC: the two raw entry points. *)
+Theorem C01_dcc : forall lower_cp,
+  (forall c, c < 128 -> lower_cp c = to_lower c) -> (forall c, scalar_value c -> scalar_value (lower_cp c)) ->
+  forall nt pw pcps ucps, utf8_decode pw = Some pcps -> Forall scalar_value ucps ->
+  dcc_from_nt lower_cp nt (utf8_encode ucps) = mscache1 lower_cp nt ucps /\
+  dcc_from_password lower_cp pw (utf8_encode ucps) = mscache1 lower_cp (ntowfv1 pcps) ucps.
+Proof. exact main_dcc. Qed.
+Print Assumptions C01_dcc.
+
+(* DCC: hexadecimal and hashcat forms ("<hex>:<lower-cased user name>"). *)
+Theorem C01_dcc_forms : forall lower_cp,
+  (forall c, c < 128 -> lower_cp c = to_lower c) -> (forall c, scalar_value c -> scalar_value (lower_cp c)) ->
+  forall nt pw pcps ucps, utf8_decode pw = Some pcps -> Forall scalar_value ucps ->
+  dcc_from_nt_hex lower_cp nt (utf8_encode ucps) = hex_form (mscache1 lower_cp nt ucps) /\
+  dcc_from_password_hex lower_cp pw (utf8_encode ucps) = hex_form (mscache1 lower_cp (ntowfv1 pcps) ucps) /\
+  dcc_from_nt_hashcat lower_cp nt (utf8_encode ucps) = dcc1_line lower_cp nt ucps /\
+  dcc_from_password_hashcat lower_cp pw (utf8_encode ucps) = dcc1_line lower_cp (ntowfv1 pcps) ucps.
+Proof. exact main_dcc_forms. Qed.
+Print Assumptions C01_dcc_forms.
+
+(* DCC2: for every iteration count >= 1 the 16 raw bytes are PBKDF2-HMAC-SHA1(DCC1, UTF-16LE(lower(user)), rounds, 16)
+   of RFC 8018, and the three entry points print "$DCC2$<rounds in decimal>#<user name as supplied>#<hex>". *)
+Theorem C01_dcc2 : forall lower_cp,
+  (forall c, c < 128 -> lower_cp c = to_lower c) -> (forall c, scalar_value c -> scalar_value (lower_cp c)) ->
+  forall nt pw pcps ucps rounds, utf8_decode pw = Some pcps -> Forall scalar_value ucps -> 1 <= rounds ->
+  dcc2_raw lower_cp (utf8_encode ucps) nt (Z.of_N rounds) = mscache2 lower_cp nt ucps rounds /\
+  dcc2_with_nt lower_cp (utf8_encode ucps) nt (Z.of_N rounds) = dcc2_line lower_cp nt ucps rounds /\
+  dcc2_with_password lower_cp (utf8_encode ucps) pw (Z.of_N rounds) = dcc2_line lower_cp (ntowfv1 pcps) ucps rounds /\
+  dcc2_hash lower_cp (utf8_encode ucps) pw (Z.of_N rounds) = dcc2_line lower_cp (ntowfv1 pcps) ucps rounds.
+Proof. exact main_dcc2. Qed.
+Print Assumptions C01_dcc2.
+
+(* The executable instance of the rune mapping (the dumped Go table used by the correspondence runs) meets both
+   hypotheses, so C01_dcc / C01_dcc_forms / C01_dcc2 apply to the model the harness compares with the code. *)
+Theorem C01_go_lower_table_ok :
+  (forall c, c < 128 -> go_lower_cp c = to_lower c) /\ (forall c, scalar_value c -> scalar_value (go_lower_cp c)).
+Proof. exact main_go_lower_table_ok. Qed.
+Print Assumptions C01_go_lower_table_ok.
+
+(* ================================================================== output forms *)
+
+(* Every hexadecimal form above is the lower-case hexadecimal of the raw value: it decodes back to the raw bytes,
+   has two digits per byte, is unchanged by lower-casing; the decimal rounds field parses back to the count. *)
+Theorem C01_forms : forall raw rounds, wf_bytes raw ->
+  unhex (hex_form raw) = Some raw /\ map to_lower (hex_form raw) = hex_form raw /\
+  length (hex_form raw) = (2 * length raw)%nat /\ parse_dec (print_dec rounds) = Some rounds.
+Proof. exact forms_decode. Qed.
+Print Assumptions C01_forms.
+
+(* ================================================================== non-vacuity and source ties *)
+
+(* chunkSize of the source (regenerated by go2coq on every run) is the 64 the model is written for *)
+Example C01_chunk_size : c01_chunkSize = 64.
 Proof. reflexivity. Qed.
+
+(* the statements of processChunk are the RFC's three round tables with rotating register roles *)
+Example C01_md4_schedule_is_rfc : go_schedule = rfc_schedule.
+Proof. reflexivity. Qed.
+
+(* RFC 1320 A.5: MD4("abc") through the streaming model, cut as "a" + "" + "bc" *)
+Example C01_md4_example :
+  fst (md4_sum (fold_left md4_write [[97]; []; [98; 99]] md4_new))
+  = [0xa4; 0x48; 0x01; 0x7a; 0xaf; 0x21; 0xd8; 0x52; 0x5f; 0xc1; 0x0a; 0xe8; 0x7a; 0xa6; 0x72; 0x9d].
+Proof. vm_compute. reflexivity. Qed.
+
+(* hypotheses are satisfiable: a valid non-BMP password, an ASCII password, a mixed-case non-BMP user name *)
+Example C01_nt_example :
+  utf8_decode [0xF0; 0x90; 0x90; 0x80; 0x61] = Some [0x10400; 0x61] /\
+  nt_hash [0xF0; 0x90; 0x90; 0x80; 0x61] = md4 [0x01; 0xD8; 0x00; 0xDC; 0x61; 0x00].
+Proof. vm_compute. split; reflexivity. Qed.
+
+Example C01_lm_example : ascii7 [112; 97; 115; 115; 119; 111; 114; 100] /\
+  lm_hash go_upper_cp [112; 97; 115; 115; 119; 111; 114; 100]
+  = [0xe5; 0x2c; 0xac; 0x67; 0x41; 0x9a; 0x9a; 0x22; 0x4a; 0x3b; 0x10; 0x8f; 0x3f; 0xa6; 0xcb; 0x6d].
+Proof. split; [repeat constructor|vm_compute; reflexivity]. Qed.
+
+Example C01_dcc2_example :
+  Forall scalar_value [0x10400; 0x41] /\
+  firstn 9 (dcc2_hash go_lower_cp (utf8_encode [0x10400; 0x41]) [112; 119] 2) = [36; 68; 67; 67; 50; 36; 50; 35; 0xF0].
+Proof. split; [repeat constructor; unfold scalar_value; lia|vm_compute; reflexivity]. Qed.
